@@ -337,7 +337,7 @@ class IsolationOracle(Oracle):
             if type_edit and type_edit[0] == h and key == type_edit[1] and ok_op:
                 continue
             kparts = key.split("/")
-            if kparts[0] in rawgeoh5.KINDS and (h, kparts[1]) in self.deferred_links and all(x.startswith("children:") for x in subs):
+            if op["k"] != "reattach" and kparts[0] in rawgeoh5.KINDS and (h, kparts[1]) in self.deferred_links and all(x.startswith("children:") for x in subs):
                 # the child link dropped by an earlier detach-and-attach-again is restored by whichever later save walks that
                 # parent (a move of an ancestor, the close)
                 self.deferred_links.discard((h, kparts[1]))
